@@ -209,9 +209,18 @@ func progExtendsSameFile() *Program {
 }
 
 func progExtendsCrossFile(sameName bool, twoLevel bool) *Program {
+	return progExtendsCrossFileS(sameName, twoLevel, false)
+}
+
+// sameSvc: the base services carry the SAME simple name as the derived one (service names are unique per file only)
+func progExtendsCrossFileS(sameName, twoLevel, sameSvc bool) *Program {
+	baseName, rootName := "Base", "RootSvc"
+	if sameSvc {
+		baseName, rootName = "Main", "Main"
+	}
 	root := &File{Path: "a/b/root.thrift", NS: "root"}
 	rootS := root.AddStruct("struct", "RootMsg", fld(1, "r", T(Double)))
-	rootSvc := root.AddService("RootSvc", nil, fn("RootCall", Ref(rootS), Ref(rootS)))
+	rootSvc := root.AddService(rootName, nil, fn("RootCall", Ref(rootS), Ref(rootS)))
 	rootSvc.Funcs[0].Feat = "extends-crossfile,inherited-2nd-level"
 	inc := &File{Path: "a/b/inc.thrift", NS: "inc"}
 	incReqName := "IncReq"
@@ -225,7 +234,7 @@ func progExtendsCrossFile(sameName bool, twoLevel bool) *Program {
 		inc.Include("root.thrift", root)
 		ext = rootSvc
 	}
-	baseSvc := inc.AddService("Base", ext, fn("BaseCall", Ref(iResp), Ref(iReq)))
+	baseSvc := inc.AddService(baseName, ext, fn("BaseCall", Ref(iResp), Ref(iReq)))
 	baseSvc.Funcs[0].Feat = "extends-crossfile,inherited"
 	f := newMain("main")
 	f.Include("inc.thrift", inc)
@@ -240,6 +249,10 @@ func progExtendsCrossFile(sameName bool, twoLevel bool) *Program {
 	}
 	if twoLevel {
 		name += ",two-level"
+	}
+	if sameSvc {
+		name += ",same-service-name"
+		baseSvc.Funcs[0].Feat = name + ",inherited"
 	}
 	return &Program{Name: name, Main: f, Feat: name}
 }
@@ -621,7 +634,7 @@ func partAPrograms(tier string) []*Program {
 	ps := []*Program{shapes,
 		progScalars(), progContainers(), progTypedefs(), progEnums(), progUnionsExceptions(), progSelfRec(), progMutRec(),
 		progIncludes(), progExtendsSameFile(), progExtendsCrossFile(false, false), progExtendsCrossFile(true, false),
-		progExtendsCrossFile(false, true), progExtendsCrossFile(true, true), progMultiService(), progFuncs(),
+		progExtendsCrossFile(false, true), progExtendsCrossFile(true, true), progExtendsCrossFileS(false, false, true), progExtendsCrossFileS(false, true, true), progMultiService(), progFuncs(),
 		progDefaults(), progAliases(), progBase("root-only"), progBase("nested-first"), progBase("root-first"),
 	}
 	return ps
